@@ -52,6 +52,7 @@ func c08LibBudget(c *core.Ctx, budget int64, wit string, desc any, body func() (
 	if exceeded {
 		c.Outcome("STEP-BUDGET-EXCEEDED")
 		c.Fail("terminates", "step-budget-exceeded", wit, map[string]any{"budget": budget, "case": desc})
+		c.Expensive()
 		return "budget", nil
 	}
 	if err != nil {
@@ -622,7 +623,7 @@ func c08CLI(c *core.Ctx, cs c08CLICase) {
 	cmd.Stdout, cmd.Stderr = &so, &se
 	c.Eval()
 	c.Trans(1)
-	limit := 30 * time.Second
+	limit := 20 * time.Second
 	if c08ConfirmedHangs >= 2 {
 		limit = 15 * time.Second
 	}
@@ -643,6 +644,7 @@ func c08CLI(c *core.Ctx, cs c08CLICase) {
 		c08ConfirmedHangs++
 		c.Outcome("CLI-HANG")
 		c.Fail("cli-terminates", "hang", wit, nil)
+		c.Expensive()
 		return
 	}
 	code := 0
@@ -658,6 +660,9 @@ func c08CLI(c *core.Ctx, cs c08CLICase) {
 	if strings.Contains(stderr, "panic:") || strings.Contains(stderr, "fatal error:") || strings.Contains(stderr, "goroutine 1 [") {
 		c.Outcome("CLI-CRASH")
 		c.Fail("cli-no-crash", "crash", cs.Tool+" @ "+crashFrame(stderr), map[string]any{"case": cs, "exit": code, "stderr": headTailS(stderr, 1500)})
+		if strings.Contains(stderr, "stack overflow") || strings.Contains(stderr, "out of memory") {
+			c.Expensive()
+		}
 		return
 	}
 	if code == 0 {
